@@ -25,6 +25,11 @@ for m in _M:
     MANIFEST["bitset_u8." + m] = (1, 1, 1, 0, "u8")
     MANIFEST["optional_vector." + m] = (2, 1, 1, 0, "u64")
     MANIFEST["complex_vector." + m] = (3, 1, 0, 0, "plain")   # today: xcomplex_iterator has no operator<
+    MANIFEST["optional_vector_u8flags." + m] = (7, 1, 1, 0, "u8")
+for k in ("complex_vector_float_ieee.iterator", "complex_vector_float_ieee.const_reverse_iterator"):
+    MANIFEST[k] = (7, 1, 0, 0, "plain")
+for k in ("stepping.deque_iterator.step1", "stepping.deque_iterator.step3"):
+    MANIFEST[k] = (4, 1, 1, 0, "plain")
 for k in ("bitset_u64.iterator", "bitset_u64.const_iterator"):
     MANIFEST[k] = (5, 1, 1, 0, "u64")
 for k in ("bitset_view_u8.iterator", "bitset_view_u8.const_iterator"):
@@ -43,14 +48,15 @@ GROUPS = sorted(set(v[0] for v in MANIFEST.values()))
 GROUP_DOC = {1: "xbitset_iterator over xdynamic_bitset<uint8_t> (+ std::reverse_iterator of it = rbegin()/rend())",
              2: "xoptional_iterator over xoptional_vector<int> (4 iterator types)",
              3: "xcomplex_iterator over xcomplex_vector<double> (4 iterator types)",
-             4: "xstepping_iterator over vector<int>::iterator / const_iterator / int*, steps 1..4 (and 7)",
+             4: "xstepping_iterator over vector<int>::iterator / const_iterator / int* with steps 1..4 (int* also 7), deque<int>::iterator with steps 1 and 3",
              5: "xbitset_iterator over uint16/32/64 blocks and xdynamic_bitset_view",
+             7: "xoptional_iterator over xoptional_vector<int> with uint8_t flag blocks (4 iterator types); xcomplex_iterator over xcomplex_vector<float, true>",
              6: "xkey_iterator / xvalue_iterator over std::map and const std::map; two direct users of xrandom_access_iterator_base + _ext"}
 
 # largest container size per size class: chosen so that block boundaries of the bit storages are crossed
 NMAX = {
     "quick": {"plain": 8, "u8": 18, "u16": 18, "u32": 12, "u64": 12},
-    "thorough": {"plain": 32, "u8": 48, "u16": 48, "u32": 70, "u64": 132},
+    "thorough": {"plain": 64, "u8": 96, "u16": 96, "u32": 132, "u64": 200},
 }
 
 
@@ -176,7 +182,7 @@ def run(ctx):
     ctx.rule = (
         "%d iterator kinds (manifest in check.py: xbitset_iterator mutable/const over uint8/16/32/64 blocks, owning and view, and its std::reverse_iterator; "
         "xoptional_iterator and xcomplex_iterator in their 4 forms iterator/const/reverse/const_reverse; xstepping_iterator over vector<int>::iterator, "
-        "const_iterator and int* with steps 1..4 (int* also 7); xkey_iterator/xvalue_iterator over std::map and const std::map; two direct users of "
+        "const_iterator and int* with steps 1..4 (int* also 7) and deque<int>::iterator with steps 1 and 3; xoptional_iterator also with uint8_t flag blocks, xcomplex_iterator also over <float, ieee>; xkey_iterator/xvalue_iterator over std::map and const std::map; two direct users of "
         "xrandom_access_iterator_base + xrandom_access_iterator_ext) x EVERY container size n in 0..N (N = %d; bit storages: uint8/uint16 blocks %d, uint32 %d, "
         "uint64 blocks incl. the optional flags %d, so that block boundaries are crossed) x every law x every parameter tuple inside [begin,end]: "
         "per n: begin()/end() anchoring, forward traversal (3 loop forms), backward traversal (2 loop forms); per position a: deref, ++it, --it, it++, it--; "
